@@ -9,7 +9,8 @@
                                      mode: strip / redact / upload-then-strip),
                                      enqueue_prompt_messages_to_cas (the per-prompt loop; each step may fail)
     /repo/src/authorship/secrets.rs : is_secret_char, extract_tokens, redact_secret,
-                                     redact_secrets_in_text, redact_secrets_from_prompts,
+                                     redact_secrets_in_text, redact_secrets_in_json (the traversal itself
+                                     is in Model/RedactJson.lean), redact_secrets_from_prompts,
                                      strip_prompt_messages
   Not modelled (opaque parameters): glob matching (`Pattern::matches` results are inputs), the
   entropy classifier `is_random` (`isSecret : Str → Bool`), the CAS queue (the outcome of every
@@ -21,6 +22,7 @@
   or inside a multi-byte char).
 -/
 import GitAiModel.Base.Text
+import GitAiModel.Model.RedactJson
 namespace GitAi.Redact
 open GitAi
 
@@ -200,13 +202,18 @@ def redactText (isSecret : Str → Bool) (t : Str) : Option (Str × Nat) :=
 
 /-! ## 4. Prompt records and the storage-mode filter -/
 
-/-- `transcript::Message` (timestamps dropped; a tool input is an opaque JSON text). -/
+/-- `redact_secrets_in_json`: `redact_secrets_in_text` applied to every string leaf and every object
+    key of a JSON value, at any depth (Model/RedactJson.lean: `redactJWith`). -/
+def redactJ (isSecret : Str → Bool) (j : J) : Option (J × Nat) := redactJWith (redactText isSecret) j
+
+/-- `transcript::Message`. Timestamps are dropped (metadata, never rewritten by the code); a tool
+    input is a JSON value (`serde_json::Value`); the tool name is an identifier the code never rewrites. -/
 inductive Msg where
   | user (text : Str)
   | assistant (text : Str)
   | thinking (text : Str)
   | plan (text : Str)
-  | toolUse (name : Str) (input : Str)
+  | toolUse (name : Str) (input : J)
   deriving Repr, DecidableEq, Inhabited
 
 /-- The fields of `authorship_log::PromptRecord` the filter touches, plus its map key. -/
@@ -226,7 +233,8 @@ def redactMsg (isSecret : Str → Bool) : Msg → Option (Msg × Nat)
   | .assistant t => (redactText isSecret t).map fun (r, n) => (.assistant r, n)
   | .thinking t => (redactText isSecret t).map fun (r, n) => (.thinking r, n)
   | .plan t => (redactText isSecret t).map fun (r, n) => (.plan r, n)
-  | .toolUse name input => some (.toolUse name input, 0)   -- "Skip tool use messages"
+  | .toolUse name input =>                                 -- `total_redactions += redact_secrets_in_json(input)`
+    (redactJ isSecret input).map fun (r, n) => (.toolUse name r, n)
 
 def redactMsgs (isSecret : Str → Bool) : List Msg → Option (List Msg × Nat)
   | [] => some ([], 0)
